@@ -29,11 +29,10 @@ def _gc(prefix, n, live=3, pend=2, twice=0, tier="quick", timeout=600):
 
 def gc_obls(prefix):
     out = []
-    out.append(_gc(prefix, 0))
     out.append(_gc(prefix, 2))
-    out.append(_gc(prefix, 4))
     out.append(_gc(prefix, 5))
     out.append(_gc(prefix, 3, twice=1))
+    out.append(_gc(prefix, 0, tier="thorough"))
     out.append(_gc(prefix, 5, twice=1, tier="thorough"))
     out.append(_gc(prefix, 6, live=4, pend=3, tier="thorough", timeout=1800))
     return out
